@@ -155,11 +155,25 @@ class Actor(object):
         self.router.set(self.transport)
 
     # ---- invariants -----------------------------------------------------
-    def check_invariants(self, where, scope=True):
-        """Return list of violation dicts (oracle ids are stable strings)."""
+    def check_invariants(self, where, scope=True, ended_in_exception=False):
+        """Return list of violation dicts (oracle ids are stable strings).
+
+        ended_in_exception: the operation's *consumer* died (ErrorTree(...) raised, a user
+        collaborator raised, ...).  The dead consumer's frames can then sit in a reference cycle
+        that the library and the interpreter build themselves (ValidationError.cause ->
+        traceback -> frame chain -> the consumer's frame -> its local holding the iterator), so
+        the abandoned iterator is *still suspended* until the memory manager runs.  That is the
+        cyclic-drop case of the gc seam, not a state the property speaks about ("whenever no
+        error iterator of that validator is suspended"): the simulated collector runs first.
+        """
         out = []
         if scope and not self.pending_cycle:
             now = self.resolver.resolution_scope
+            if now != self.scope0 and ended_in_exception:
+                gc.collect()
+                now = self.resolver.resolution_scope
+                if now == self.scope0:
+                    self.probe("scope_restored_only_after_gc_of_dead_consumer")
             if now != self.scope0:
                 out.append({"oracle": "scope-not-restored", "where": where,
                             "detail": {"expected": self.scope0, "got": now}})
